@@ -535,6 +535,73 @@ func genRouting(repo string) string {
 		g.strList("insertLeafWrites", "per case of `insertBranches`: which of handlers / constraints / path / paramNames the case assigns", rows)
 	}
 
+	// ---- (*Router).Mount / mountRoute: how the prefix is normalised and joined with a sub-route's path
+	var mountNorm, mountJoin []string
+	g.guard("Mount", func() {
+		fn := rtMethod(router, "Router", "Mount")
+		if len(fn.Type.Params.List) == 0 || len(fn.Type.Params.List[0].Names) == 0 {
+			g.fail(fn, "Mount: no named first parameter")
+		}
+		pfx := fn.Type.Params.List[0].Names[0].Name
+		norm := func(n ast.Node) string { return strings.ReplaceAll(src(n), pfx, "$p") }
+		for _, st := range fn.Body.List {
+			switch q := st.(type) {
+			case *ast.AssignStmt:
+				if len(q.Lhs) == 1 && len(q.Rhs) == 1 && src(q.Lhs[0]) == pfx {
+					if c, ok := q.Rhs[0].(*ast.CallExpr); ok && len(c.Args) == 2 && src(c.Args[0]) == pfx {
+						mountNorm = append(mountNorm, rtCallee(c)+"("+src(c.Args[1])+")")
+					} else {
+						g.fail(q, "Mount: unrecognised assignment to the prefix: %s", src(q))
+					}
+				}
+			case *ast.IfStmt:
+				for _, b := range q.Body.List {
+					if as, ok := b.(*ast.AssignStmt); ok && len(as.Lhs) == 1 && src(as.Lhs[0]) == pfx {
+						mountNorm = append(mountNorm, "if "+norm(q.Cond)+" { "+norm(as)+" }")
+					}
+				}
+			}
+		}
+		mr := rtMethod(router, "Router", "mountRoute")
+		if len(mr.Type.Params.List) == 0 || len(mr.Type.Params.List[0].Names) == 0 {
+			g.fail(mr, "mountRoute: no named first parameter")
+		}
+		mp := mr.Type.Params.List[0].Names[0].Name
+		for _, st := range mr.Body.List {
+			is, ok := st.(*ast.IfStmt)
+			if !ok || rtContainsCall(is.Cond, "Path") == nil {
+				continue
+			}
+			lit, ok := rtCmpLit(is.Cond)
+			if !ok {
+				g.fail(is, "mountRoute: the test on Path() is not a comparison with a literal")
+			}
+			arm := func(b *ast.BlockStmt) string {
+				if len(b.List) != 1 {
+					return "?"
+				}
+				as, ok := b.List[0].(*ast.AssignStmt)
+				if !ok || len(as.Rhs) != 1 {
+					return "?"
+				}
+				r := strings.ReplaceAll(src(as.Rhs[0]), mp, "$p")
+				if i := strings.Index(r, "."); i >= 0 && strings.HasSuffix(r, ".Path()") { // `$p + rt.Path()` -> `$p + Path()`
+					if j := strings.LastIndex(r[:len(r)-len(".Path()")], " "); j >= 0 {
+						r = r[:j+1] + "Path()"
+					}
+				}
+				return r
+			}
+			eb, ok := is.Else.(*ast.BlockStmt)
+			if !ok {
+				g.fail(is, "mountRoute: the test on Path() has no plain else")
+			}
+			mountJoin = append(mountJoin, "Path()=="+leanStr(lit)+":"+arm(is.Body), "else:"+arm(eb))
+		}
+	})
+	g.strList("mountPrefixNorm", "`(*Router).Mount`: what happens to the prefix before the routes are merged, in order ($p = the prefix)", mountNorm)
+	g.strList("mountJoin", "`(*Router).mountRoute`: the full path of a mounted route ($p = the normalised prefix)", mountJoin)
+
 	// ---- (*Router).ServeHTTP: the order of the lookup stages
 	var stages []string
 	g.guard("ServeHTTP", func() {
